@@ -574,3 +574,155 @@ Theorem rename_name_survives (n : text) rest :
 Proof.
   intro H. apply sheet_roundtrip_x. intro; subst. discriminate.
 Qed.
+
+(* ---- the general form: any environment change that satisfies the four resolution conditions ---------- *)
+Theorem retarget_roundtrip m nm env env' i n rho e :
+  sheet_index env' (Some n) = Some (rho i) ->
+  (forall name k, sheet_index env (Some name) = Some k -> k <> i -> sheet_index env' (Some name) = Some (rho k)) ->
+  sheet_index env' None = reindex_field rho (sheet_index env None) ->
+  (forall g, sheet_index env (Some g) = None -> g <> n -> sheet_index env' (Some g) = None) ->
+  (forall name ci, sheet_index env None = Some ci ->
+                   get_defined_name nm env' name (rho ci) = get_defined_name nm env name ci) ->
+  pe_tables env' = pe_tables env ->
+  image m nm env e = true -> no_bad (pm_xlsx m) e = true -> lower_stable nm e = true ->
+  no_ghost_range e = true -> no_ghost_named n e = true ->
+  parse m nm env' (print m nm (rename_node i n e)) = Some (retarget i n rho e, []).
+Proof.
+  intros HA HB HC HD Hdn Htb Hi Hb Hl Hg Hn.
+  rewrite <- (print_reindex rho m nm (rename_node i n e)). change (reindex rho (rename_node i n e)) with (retarget i n rho e).
+  apply roundtrip_parse.
+  - unfold image. apply (image_retarget m nm env env' i n rho HA HB HC HD Hdn Htb); assumption.
+  - rewrite no_bad_retarget. exact Hb.
+  - rewrite lower_stable_retarget. exact Hl.
+Qed.
+
+(* ---- duplicate_sheet: index_of on the list with the copy inserted ----------------------------------- *)
+Lemma index_of_shift name l : forall a, index_of name l (a + 1) = option_map (fun z => z + 1) (index_of name l a).
+Proof.
+  induction l as [|x r IH]; intro a; cbn [index_of]; [reflexivity|].
+  destruct (text_eqb x name); [reflexivity|]. apply IH.
+Qed.
+
+Section InsertIdx.
+  Variable c : text.
+
+  Lemma insert_at_cons (p : nat) (x : text) (r : list text) : insert_at (S p) c (x :: r) = x :: insert_at p c r.
+  Proof. reflexivity. Qed.
+  Lemma insert_at_0 (l : list text) : insert_at 0 c l = c :: l.
+  Proof. reflexivity. Qed.
+  Lemma insert_at_nil (p : nat) : insert_at p c [] = [c].
+  Proof. unfold insert_at. rewrite firstn_nil, skipn_nil. reflexivity. Qed.
+
+  Lemma idx_insert_other p : forall l a name j,
+    index_of name l a = Some j -> name <> c ->
+    index_of name (insert_at p c l) a = Some (if j <? a + Z.of_nat p then j else j + 1).
+  Proof.
+    induction p as [|p IH]; intros l a name j H Hne.
+    - rewrite insert_at_0. cbn [index_of]. rewrite (text_eqb_neq c name) by congruence.
+      rewrite index_of_shift, H. cbn [option_map].
+      destruct (index_of_some_nth _ _ _ _ H) as (t & Ht & _).
+      destruct (j <? a + Z.of_nat 0) eqn:E; [apply Z.ltb_lt in E; lia|reflexivity].
+    - destruct l as [|x r]; [discriminate|]. rewrite insert_at_cons. cbn [index_of] in *.
+      destruct (text_eqb x name).
+      + inversion H; subst. destruct (j <? j + Z.of_nat (S p)) eqn:E; [reflexivity|apply Z.ltb_ge in E; lia].
+      + rewrite (IH r (a + 1) name j H Hne). replace (a + 1 + Z.of_nat p) with (a + Z.of_nat (S p)) by lia. reflexivity.
+  Qed.
+
+  Lemma idx_insert_self p : forall l a, ~ In c l -> (p <= length l)%nat ->
+    index_of c (insert_at p c l) a = Some (a + Z.of_nat p).
+  Proof.
+    induction p as [|p IH]; intros l a Hnot Hp.
+    - rewrite insert_at_0. cbn [index_of]. rewrite text_eqb_refl. f_equal. lia.
+    - destruct l as [|x r]; [cbn [length] in Hp; lia|]. rewrite insert_at_cons. cbn [index_of].
+      rewrite (text_eqb_neq x c) by (intro; subst; apply Hnot; left; reflexivity).
+      rewrite IH; [f_equal; lia|intro; apply Hnot; right; assumption|cbn [length] in Hp; lia].
+  Qed.
+
+  Lemma idx_insert_none p : forall l a g, index_of g l a = None -> g <> c ->
+    index_of g (insert_at p c l) a = None.
+  Proof.
+    induction p as [|p IH]; intros l a g H Hne.
+    - rewrite insert_at_0. cbn [index_of]. rewrite (text_eqb_neq c g) by congruence.
+      rewrite index_of_shift, H. reflexivity.
+    - destruct l as [|x r].
+      + rewrite insert_at_nil. cbn [index_of]. rewrite (text_eqb_neq c g) by congruence. reflexivity.
+      + rewrite insert_at_cons. cbn [index_of] in *. destruct (text_eqb x g); [discriminate|]. apply IH; assumption.
+  Qed.
+End InsertIdx.
+
+(* the copy's formulas: the source's trees after the retargeting pass, printed in the stored form and
+   parsed on the copy, are the source's trees with the references to the source (explicit or implicit)
+   pointing to the copy and the sheets behind it renumbered; workbooks without defined names / tables
+   (those are covered by the oracle only) *)
+Theorem duplicate_roundtrip nm env (src : nat) (copy : text) (e : ast) :
+  (src < length (pe_sheets env))%nat -> NoDup (pe_sheets env) ->
+  pe_ctx_sheet env = nth src (pe_sheets env) [] ->
+  ~ In copy (pe_sheets env) -> pe_defnames env = [] -> 
+  image m_stored nm env e = true -> no_bad false e = true -> lower_stable nm e = true ->
+  no_ghost_range e = true -> no_ghost_named copy e = true ->
+  parse m_stored nm (env_dup src copy env) (print m_stored nm (dup_node (Z.of_nat src) copy e))
+  = Some (reindex (dup_index (Z.of_nat src)) (dup_node (Z.of_nat src) copy e), []).
+Proof.
+  intros Hs Hnd Hctx Hfresh Hdn0 Hi Hb Hl Hg Hn. unfold dup_node.
+  apply (retarget_roundtrip m_stored nm env (env_dup src copy env) (Z.of_nat src) copy (dup_index (Z.of_nat src)) e);
+    try assumption.
+  - unfold sheet_index, env_dup. cbn [pe_sheets]. rewrite idx_insert_self; [|exact Hfresh|lia].
+    unfold dup_index. rewrite Z.ltb_irrefl. f_equal. lia.
+  - intros name k Hk Hne. unfold sheet_index in *. cbn [pe_sheets env_dup].
+    assert (name <> copy).
+    { intro; subst. destruct (index_of_some_nth _ _ _ _ Hk) as (t & _ & Hnth). apply Hfresh. eapply nth_error_In; exact Hnth. }
+    rewrite (idx_insert_other copy (S src) _ 0 name k Hk H). f_equal. unfold dup_index.
+    destruct (k <? 0 + Z.of_nat (S src)) eqn:E1; destruct (k <? Z.of_nat src) eqn:E2; try reflexivity.
+    + apply Z.ltb_lt in E1. apply Z.ltb_ge in E2. lia.
+    + apply Z.ltb_ge in E1. apply Z.ltb_lt in E2. lia.
+  - unfold sheet_index. cbn [pe_sheets pe_ctx_sheet env_dup]. rewrite Hctx.
+    rewrite idx_nodup_nth by assumption. rewrite idx_insert_self; [|exact Hfresh|lia].
+    cbn [reindex_field]. unfold dup_index. rewrite Z.ltb_irrefl. f_equal. lia.
+  - intros g Hgn Hne. unfold sheet_index in *. cbn [pe_sheets env_dup]. apply idx_insert_none; assumption.
+  - intros name ci _. unfold get_defined_name. cbn [pe_defnames env_dup]. rewrite Hdn0. reflexivity.
+  - reflexivity.
+Qed.
+
+(* ---- the stored formulas are parsed with the USER's locale (finding F65) ---------------------------- *)
+Definition m_user_semicolon : pmode := {| pm_rc := true; pm_xlsx := false; pm_dot := false; pm_row := 1; pm_col := 1 |}.
+Definition p00 : pref := {| p_row := 0; p_col := -1; p_abs_col := false; p_abs_row := false |}.
+Definition t_sum : text := [115;117;109].
+(* sum(Sheet1!R[0]C[-1],Sheet2!R[0]C[-1]) *)
+Definition ts_two_args : list token :=
+  [TIdent t_sum; TLParen; TReference (Some t_sheet1) p00; TComma; TReference (Some t_sheet2) p00; TRParen].
+
+Theorem rename_stored_user_locale_refuted :
+  (* parsed as parse_formulas parses it (English) the reference to sheet 1 gets the new name *)
+  rename_stored m_stored nm_w nm_w env_w 1 t_renamed ts_two_args =
+    [TIdent t_sum; TLParen; TReference (Some t_sheet1) p00; TComma; TReference (Some t_renamed) p00; TRParen] /\
+  (* parsed with a locale whose argument separator is ';' (what rename_sheet_by_index does when the user
+     works in such a locale) the text is a parse error and stays as it is *)
+  rename_stored m_user_semicolon nm_w nm_w env_w 1 t_renamed ts_two_args = ts_two_args /\
+  (* ... so after the rename the reference to the renamed sheet dangles *)
+  parse m_stored nm_w (env_renamed 1 t_renamed env_w) ts_two_args =
+    Some (ENamedFun None t_sum [ERef (Some t_sheet1) (Some 0) p00; ERef (Some t_sheet2) None p00], []).
+Proof. vm_compute. repeat split. Qed.
+
+(* non-vacuity of rename_roundtrip: SUM(Sheet2!R[0]C[-1])+R[0]C[-1]-Ghost!R[0]C[-1], renaming Sheet2 *)
+Example rename_roundtrip_nonvacuous :
+  let e := ESum SMinus (ESum SAdd (ENamedFun None t_sum [ERef (Some t_sheet2) (Some 1) p00]) (ERef None (Some 0) p00))
+                (ERef (Some t_ghost) None p00) in
+  image m_stored nm_w env_w e = true /\ no_bad false e = true /\ lower_stable nm_w e = true /\
+  no_ghost_range e = true /\ no_ghost_named t_renamed e = true /\
+  rename_node 1 t_renamed e <> e /\
+  parse m_stored nm_w (env_renamed 1 t_renamed env_w) (print m_stored nm_w (rename_node 1 t_renamed e))
+    = Some (rename_node 1 t_renamed e, []).
+Proof. vm_compute. repeat split. discriminate. Qed.
+
+(* non-vacuity of duplicate_roundtrip: the same formula on Sheet1, duplicated *)
+Definition t_copy : text := [83;104;101;101;116;49;32;40;49;41].      (* "Sheet1 (1)" *)
+Example duplicate_roundtrip_nonvacuous :
+  let e := ESum SMinus (ESum SAdd (ENamedFun None t_sum [ERef (Some t_sheet1) (Some 0) p00; ERef (Some t_sheet2) (Some 1) p00])
+                             (ERef None (Some 0) p00))
+                (ERef (Some t_ghost) None p00) in
+  image m_stored nm_w env_w e = true /\
+  parse m_stored nm_w (env_dup 0 t_copy env_w) (print m_stored nm_w (dup_node 0 t_copy e))
+    = Some (ESum SMinus (ESum SAdd (ENamedFun None t_sum [ERef (Some t_copy) (Some 1) p00; ERef (Some t_sheet2) (Some 2) p00])
+                             (ERef None (Some 1) p00))
+                (ERef (Some t_ghost) None p00), []).
+Proof. vm_compute. repeat split. Qed.
